@@ -299,7 +299,12 @@ class Scenario:
         self.ret_proxies = []
         for (src_bid, kind, dst, cond, direct) in self.model.block_edges():
             s = self.blocks[src_bid]
-            if dst is None:
+            if dst is None and kind == "return" and spec.get("shared_ret_proxy"):
+                # one "unknown callers" proxy shared by every function that returns to unknown places
+                if not self.ret_proxies:
+                    self.ret_proxies.append(gtirb.ProxyBlock(module=m))
+                t = self.ret_proxies[0]
+            elif dst is None:
                 t = gtirb.ProxyBlock(module=m)
             elif dst.startswith("ext:"):
                 t = self.symbols[dst[4:]].referent
@@ -376,6 +381,8 @@ class Scenario:
             "decline": "<decline>",
             "trail_label": "mov eax, %d\ntl_%d:" % (k, mi),
             "trail_label_data": ".byte %d\ntl_%d:" % (k & 0xFF, mi),
+            "lead_align4": ".align 4\npl_%d:\nmov eax, %d" % (mi, k),
+            "lead_align16": ".align 16\npl_%d:\nmov eax, %d" % (mi, k),
             "string": '.string "h%d"' % (mi % 10),
             "alias_data": "jmp .Lskip\nt1_%d:\nt2_%d:\n.byte %d\n.Lskip:\nmov eax, %d" % (mi, mi, k & 0xFF, k),
         }
@@ -552,6 +559,15 @@ class Scenario:
         orig = set(map(id, self.intervals.values()))
         old = sorted([b for b in sect.byte_intervals if id(b) in orig], key=lambda b: b.address)
         new = sorted([b for b in sect.byte_intervals if id(b) not in orig], key=lambda b: b.address)
+        if len(new) > 1:
+            # several inserted functions: listed in registration order, wherever gtirb_layout put each of them
+            rank = {}
+            for n, md in enumerate(m for m in self.spec.get("mods", []) if m["op"] == "insert_function"):
+                for sym in self.module.symbols_named(md["name"]):
+                    blk = sym.referent
+                    if isinstance(blk, gtirb.ByteBlock) and blk.byte_interval is not None:
+                        rank[id(blk.byte_interval)] = n
+            new.sort(key=lambda b: (rank.get(id(b), len(rank)), b.address))
         return old + new
 
     def flatten_bytes(self, sect):
